@@ -1306,10 +1306,10 @@ Error query_rw_info(Arch arch, const BaseInst& inst, const Operand_* operands, s
       if (op_count == 2) {
         if (operands[0].is_vec128()) {
           out->_operands[0].reset(X, 16);
-          out->_operands[0].set_read_byte_mask(0x0F0Fu);
+          out->_operands[0].set_read_byte_mask(0x00FFu);
           out->_operands[0].set_write_byte_mask(0xFFFFu);
           out->_operands[1].reset(R, 16);
-          out->_operands[1].set_write_byte_mask(0x0F0Fu);
+          out->_operands[1].set_read_byte_mask(0x00FFu);
 
           if (operands[1].is_vec128()) {
             return Error::kOk;
